@@ -180,12 +180,81 @@ def gen_case(rng, cid, profile="mixed"):
     sched = {"seed": rng.randrange(1 << 30), "sleep_pct": 0, "sleep_ms": 0,
              "multi_pct": rng.choice([0, 0, 30, 60])}
     if any_delay:
-        sched["sleep_pct"] = 25
+        sched["sleep_pct"] = rng.choice([25, 40])
         sched["sleep_ms"] = any_delay // 1000 + 3
+        # pauses shorter than, about half of, and longer than the delay: retries of different
+        # scenarios become ready at different moments
+        sched["sleep_ms_choices"] = [any_delay // 2000 + 1, any_delay // 1000 + 3, 4]
     npl = rng.choice([2, 3])
     pipelines = rng.sample(PIPELINES, npl)
     return {"id": cid, "features": feats, "parser": parser, "cfg": cfg, "outcomes": outcomes,
             "schedule": sched, "expect": expect, "pipelines": pipelines}
+
+
+def rebuild_expect(c, rng):
+    """Recomputes `expect` (structure part) after the features of a case were edited; outcome
+    scripts of scenarios that are new default to all-pass."""
+    cfg = c["cfg"]
+    old = c["expect"]
+    serial_custom = cfg.get("serial_custom")
+    expect = {"limit": old["limit"], "fail_fast": old["fail_fast"], "before": old["before"],
+              "after": old["after"], "twin": False, "feats": {}, "rules": {}, "scen": {},
+              "parser": old["parser"]}
+    for f in c["features"]:
+        allsc = [(None, s) for s in f["scenarios"]] + [(r, s) for r in f["rules"] for s in r["scenarios"]]
+        expect["feats"][f["name"]] = {"nscen": len(allsc), "nrules": len(f["rules"]),
+                                      "nsteps": sum(len(s["steps"]) for _, s in allsc),
+                                      "order": [s["name"] for _, s in allsc]}
+        for r in f["rules"]:
+            expect["rules"][r["name"]] = {"f": f["name"], "nscen": len(r["scenarios"])}
+        for r, s in allsc:
+            inherited = s["tags"] + (r["tags"] if r else []) + f["tags"]
+            ret = parse_retry(s["tags"]) or (parse_retry(r["tags"]) if r else None) or parse_retry(f["tags"])
+            budget, delay = (ret if ret else (-1, 0))
+            steps = []
+            for i, k in enumerate(f["bg"]):
+                steps.append({"text": f"{f['name']} bg {i+1} {k}", "label": f"{f['name']} bg {i+1}", "bg": True, "kind": k})
+            if r:
+                for i, k in enumerate(r["bg"]):
+                    steps.append({"text": f"{r['name']} bg {i+1} {k}", "label": f"{r['name']} bg {i+1}", "bg": True, "kind": k})
+            for i, k in enumerate(s["steps"]):
+                steps.append({"text": f"{s['name']} step {i+1} {k}", "label": f"{s['name']} step {i+1}", "bg": False, "kind": k})
+            serial = (s["name"] in serial_custom) if serial_custom is not None else ("serial" in inherited)
+            expect["scen"][s["name"]] = {"idx": len(expect["scen"]) + 1,
+                                         "f": f["name"], "r": r["name"] if r else "", "serial": serial,
+                                         "budget": budget, "delay_us": delay,
+                                         "allow_skipped": "allow.skipped" in inherited, "steps": steps}
+            c["outcomes"].setdefault(s["name"], [])
+    c["expect"] = expect
+    return c
+
+
+def serial_retry_case(rng, cid):
+    """Two serial scenarios whose delayed retries are queued together, next to running
+    concurrent scenarios (late-ready serial entries at different queue positions)."""
+    c = gen_case(rng, cid, "serial")
+    d = rng.choice([12, 20])
+    f = c["features"][0]
+    base = max([int(s[1:]) for s in c["expect"]["scen"]] + [0])
+    new = []
+    for j in range(2):
+        new.append({"name": f"S{base + 1 + j}", "tags": ["serial", f"retry(1).after({d}ms)"],
+                    "steps": ["run"]})
+    for j in range(rng.choice([2, 3])):
+        new.append({"name": f"S{base + 3 + j}", "tags": [], "steps": ["run"] * rng.choice([2, 3])})
+    f["scenarios"] = new + f["scenarios"]
+    c2 = rebuild_expect(c, rng)
+    for j in range(2):
+        name = f"S{base + 1 + j}"
+        c2["outcomes"][name] = [{"steps": {f"{name} step 1": "panic_string"}}, {"steps": {}}]
+    c2["cfg"]["conc_cli"] = None
+    c2["cfg"]["conc_builder"] = rng.choice(["default", "none", 2, 3])
+    lim = c2["cfg"]["conc_builder"]
+    c2["expect"]["limit"] = 64 if lim == "default" else (-1 if lim == "none" else lim)
+    c2["schedule"]["sleep_pct"] = 50
+    c2["schedule"]["sleep_ms"] = d + 3
+    c2["schedule"]["sleep_ms_choices"] = [d // 2 + 1, d // 3, d + 3, 3]
+    return c2
 
 
 def twin_pair(rng, cid):
@@ -220,6 +289,8 @@ def gen_cases(seed, n, profiles=("mixed", "serial", "retry", "failfast", "lazy",
         i += 1
         if i % 9 == 0:
             cases.extend(twin_pair(rng, f"c{i}"))
+        elif i % 11 == 0:
+            cases.append(serial_retry_case(rng, f"c{i}"))
         else:
             cases.append(gen_case(rng, f"c{i}", profiles[i % len(profiles)]))
     return cases
